@@ -32,6 +32,8 @@ def run(check: Check, repo: Repo, tier: str) -> None:
     lt_agree.lexer_newline_tests(check, repo)
     L.escape_tables(check, repo)
     L.block_escape(check, repo)
+    L.escape_range(check, repo)
+    L.block_flag(check, repo)
     L.printer_coverage(check, repo, model)
     L.parser_fields(check, repo, model)
     L.printer_per_return(check, repo, model)
